@@ -17,7 +17,8 @@ SHARDS = {"quick": 10, "thorough": 16}
 TIMEOUT = {"quick": 300, "thorough": 2400}
 RULE = ("workloads = server in {Simple, Pooled with default pool, Pooled with user pool of size 1/2/5} x listener "
         "{TCP, Unix}; 2-16 client threads (<= 5 for the sequential server) each issuing 15-200 operations from {call, "
-        "keyword call, notification, batch, invalid body (raw socket), failing method, slow method 1-20 ms}, every call "
+        "keyword call, notification, batch, invalid body (raw socket), HTTP request truncated below its Content-Length, "
+        "failing method, slow method 1-20 ms}, every call "
         "carrying a unique token that the reply must echo; all jsonrpclib modules under line-level yield injection; a "
         "stall sweep parking a pool worker / the accept thread at each line of the pool's worker loop, enqueue and "
         "thread creation while requests arrive around the workers' idle timeout. "
@@ -152,11 +153,18 @@ def client_thread(ctx_lock, results, sut, cid, nops, seed, bad_every):
                 t = tok()
                 out = proxy.slow(t, rng.choice([1, 3, 8, 20]))
                 rec = ("slow", [t], [out["bound"]["token"]], 1)
-            else:
+            elif r < 0.97:
                 body = rng.choice(['{"jsonrpc": "2.0", "method"', "[", "", '{"jsonrpc": "2.0", "id": 1}', "[1]", "nul"])
                 status, headers, payload = raw.post(body)
                 good = status == 200 and b'"error"' in payload
                 rec = ("invalid", [], [] if good else ["<status %s %r>" % (status, payload[:80])], 0)
+            else:
+                # malformed at the HTTP level: the body is shorter than the declared Content-Length and the client
+                # half-closes; whatever the answer, the server must go on serving
+                body = '{"jsonrpc": "2.0", "method": "echo", "params": ["trunc'
+                status, headers, payload = raw.post(body, declared_length=len(body) + rng.choice([1, 7, 500]),
+                                                    half_close=True)
+                rec = ("truncated-http", [], [], 0)
         except BaseException as ex:  # noqa
             rec = ("exception", [], ["<%s: %s>" % (type(ex).__name__, str(ex)[:100])], 0)
         with ctx_lock:
@@ -185,20 +193,35 @@ def clients_workload(ctx, rng, inj, cell, family):
     for t in ths:
         t.daemon = True
         t.start()
-    for t in ths:
-        t.join(240)
+    # bounded progress: the clients are the only source of work; nothing answered for 8 s while some are still
+    # waiting means the server stopped serving
+    last, last_change = -1, time.monotonic()
+    while any(t.is_alive() for t in ths):
+        time.sleep(0.02)
+        n_done = len(results)
+        now = time.monotonic()
+        if n_done != last:
+            last, last_change = n_done, now
+        elif now - last_change > 8.0:
+            break
     inj.configure("none")
     stuck = [t.name for t in ths if t.is_alive()]
     case = {"cell": [cell[0], cell[1]], "family": family, "clients": nclients, "ops": nops}
     ctx.cell(cell[0], "pool%s" % cell[1], family, "clients")
     if stuck:
-        ctx.violate("clients-not-served:" + cell[0], case, {"stuck": stuck, "stacks": poolmon.thread_stacks()})
+        kinds = [r[2] for r in results]
+        ctx.violate("clients-not-served:%s%s" % (cell[0], ":after-truncated-http-request" if "truncated-http" in kinds else ""),
+                    case, {"stuck": stuck, "answered": len(results), "stacks": poolmon.thread_stacks()})
+        sut.srv.cleanup()
+        return 0
     sent = []
     for cid, i, kind, toks, got, n in results:
         ctx.count("op:" + kind)
         ctx.case((cell, family, kind, tuple(toks), cid, i), nontrivial=True)
         if kind == "exception":
             ctx.violate("client-call-raised-on-fault-free-network", case, {"op": i, "client": cid, "what": got})
+            continue
+        if kind == "truncated-http":
             continue
         if kind == "invalid":
             if got:
